@@ -53,9 +53,13 @@ KERNELS = [('CubicSpline', (1, 2, 3)), ('WendlandQuintic', (2, 3)),
            ('SuperGaussian', (1, 2, 3)), ('WendlandQuinticC2_1D', (1,)),
            ('WendlandQuinticC4_1D', (1,)), ('WendlandQuinticC6_1D', (1,))]
 NNPS = ['LinkedListNNPS', 'SpatialHashNNPS', 'CellIndexingNNPS',
-        'BoxSortNNPS', 'OctreeNNPS', 'StratifiedHashNNPS:2',
+        'BoxSortNNPS', 'OctreeNNPS', 'StratifiedHashNNPS:num_levels=2',
         'DictBoxSortNNPS', 'ExtendedSpatialHashNNPS', 'ZOrderNNPS',
-        'CompressedOctreeNNPS', 'StratifiedHashNNPS:3',
+        'CompressedOctreeNNPS', 'StratifiedHashNNPS:num_levels=3',
+        # tiny hash tables: several occupied cells share a bucket
+        'SpatialHashNNPS:table_size=3',
+        'ExtendedSpatialHashNNPS:table_size=2',
+        'StratifiedHashNNPS:num_levels=2,table_size=3',
         # one array only (recorded C01 findings for several arrays)
         'ExtendedZOrderNNPS', 'StratifiedSFCNNPS']
 SINGLE_ARRAY_ONLY = ('ExtendedZOrderNNPS', 'StratifiedSFCNNPS')
@@ -251,7 +255,8 @@ def _job(args, only=None):
                     kw = {}
                     cls_name = nn_name.split(':')[0]
                     if ':' in nn_name:
-                        kw['num_levels'] = int(nn_name.split(':')[1])
+                        for item in nn_name.split(':')[1].split(','):
+                            kw[item.split('=')[0]] = int(item.split('=')[1])
                     if cls_name in ('OctreeNNPS', 'CompressedOctreeNNPS'):
                         # small leaves and the multi-thread tree builder: a
                         # deep tree even for four particles
